@@ -24,6 +24,7 @@ type profile struct {
 	forks     int // 0 none, 1 some runs, 2 most runs
 	resets    bool
 	deep      int // permille of runs that are one deep epoch (hundreds of frames)
+	deepEv    [2]int // events of a deep run (default 400..1200)
 }
 
 var profiles = map[string]profile{
@@ -34,7 +35,7 @@ var profiles = map[string]profile{
 	"C05": {resets: true, on: []string{"fc"}, heavyOK: true, restarts: true, maxEvents: 110, forks: 2},
 	"C06": {resets: true, on: []string{"clock"}, heavyOK: true, restarts: true, maxEvents: 110, forks: 2},
 	"C07": {on: []string{"twin", "reject"}, byz: 250, spec: 150, storms: true, maxEvents: 90, forks: 1},
-	"C08": {on: []string{"restartenum"}, byz: 80, maxEvents: 70, forks: 1},
+	"C08": {deep: 100, deepEv: [2]int{110, 240}, on: []string{"restartenum"}, byz: 80, maxEvents: 70, forks: 1},
 	"C09": {resets: true, on: []string{"seal", "joiner", "agree"}, byz: 20, restarts: true, maxEvents: 140, forks: 1},
 	"C10": {deep: 40, resets: true, on: []string{"ref", "reject"}, byz: 120, spec: 10, restarts: true, maxEvents: 130, forks: 1},
 	"C20": {resets: true, on: []string{"qi"}, heavyOK: true, maxEvents: 100, forks: 1, noSeal: false},
@@ -102,7 +103,7 @@ func (cl *Cluster) drawKnobs(p profile) {
 		}
 	}
 	k.spare = K("spare_validators", ri("spare", 0, 1))
-	k.vsetMode = K("vset_mode", ri("vset_mode", 0, 2))
+	k.vsetMode = K("vset_mode", ri("vset_mode", 0, 3))
 	k.vsetSeed = uint64(c.Knob("vset_seed", func() int64 { return int64(c.Int("vset_seed", 0, 1<<30)) }))
 	// cheaters
 	k.cheaters = map[uint32]bool{}
@@ -258,17 +259,27 @@ func (cl *Cluster) drawDeepKnobs(p profile) {
 	k.bufNum = 1000
 	cl.bufLimit = dag.Metric{Num: idx.Event(k.bufNum), Size: uint64(k.bufNum) * 4096}
 	k.sealFrame, k.maxEpochs = 0, 1
+	lo, hi := 400, 1200
+	if p.deepEv[1] > 0 {
+		lo, hi = p.deepEv[0], p.deepEv[1]
+	}
 	k.events = K("events", func() int64 {
-		if k.nVal == 2 {
-			return int64(c.Int("deep_events", 400, 900)) // two validators: a frame per round, beyond 256 decided frames
+		if k.nVal == 2 && hi > 900 {
+			return int64(c.Int("deep_events", lo, 900)) // two validators: a frame per round, beyond 256 decided frames
 		}
-		return int64(c.Int("deep_events", 400, 1200))
+		return int64(c.Int("deep_events", lo, hi))
 	})
 	if k.nVal == 4 {
 		k.deepLagNode = K("deep_laggard", ri("deep_laggard", -1, 3))
 		if k.deepLagNode >= 0 {
 			k.deepLagFrom = K("deep_laggard_from", ri("deep_laggard_from", 4, 40))
-			k.deepLagTo = K("deep_laggard_to", func() int64 { return int64(k.events - c.Int("deep_laggard_tail", 10, 150)) })
+			k.deepLagTo = K("deep_laggard_to", func() int64 {
+				tail := 150
+				if k.events/3 < tail {
+					tail = k.events / 3
+				}
+				return int64(k.events - c.Int("deep_laggard_tail", 10, tail))
+			})
 		}
 	}
 	k.dropPm = K("drop_permille", func() int64 { return int64(c.PickW("drop", []int{4, 1})) * 50 })
@@ -296,9 +307,12 @@ func Run(c *sim.Ctx, prop string) {
 		cl.on[o] = true
 	}
 	cl.ext = newExtras(cl)
-	c.ProbeDecl("event_frame_gt1", "run_with_forks", "run_with_epoch_change")
+	c.ProbeDecl("event_frame_gt1", "run_with_forks", "run_with_epoch_change", "one_event_decided_2_or_more_frames", "one_event_decided_3_or_more_frames")
 	if p.deep > 0 {
-		c.ProbeDecl("deep_epoch_run", "build_capped_100_frames_above_self_parent", "valid_claim_more_than_100_frames_above_self_parent", "block_of_frame_256_or_higher")
+		c.ProbeDecl("deep_epoch_run")
+		if p.deepEv[1] == 0 {
+			c.ProbeDecl("build_capped_100_frames_above_self_parent", "valid_claim_more_than_100_frames_above_self_parent", "block_of_frame_256_or_higher")
+		}
 	}
 	cl.drawKnobs(p)
 	k := &cl.k
